@@ -1,5 +1,5 @@
 CONFIG = {
-    'subs': ['Param'],
+    'subs': ['Param', 'Json', 'StrToNum'],
     'props_modules': ['DmlcModel.Props.C17', 'DmlcModel.Props.C17Witness'],
     'driver': 'Param',
     'harness': {'name': 'param', 'srcs': ['harness/h_param.cc'], 'args': ['--prop', 'C17']},
@@ -14,8 +14,11 @@ CONFIG = {
             'distinct hash of the op list',
     'assumptions': [
         'libstdc++ "C"-locale num_get / istream sentry behaviour as modelled in Param/IStream.lean (checked by the ext ops)',
-        'float/double fields: theorems are generic in the conversion pair (FloatOps); the driver instance mirrors '
-        'dmlc::stof/stod step by step with exact rationals + round-to-nearest-even (IEEE binary32/64, SSE2)',
+        'float/double fields: theorems are generic in the conversion pair (FloatOps); the driver instance and '
+        'C17_float_field_roundtrip use the C14 model of dmlc::stof/stod (StrToNum.sto); Save/Load go through the C16 '
+        'model of json.h (Json.writeTop/readTop at map<string,string>)',
+        'printing side of float fields (libc %.9g / %.17g emits a decimal lexeme that is the P-digit rounding of the '
+        'value) is a hypothesis of the float round trip; the driver mirrors it exactly (FloatImpl.printG)',
         'glibc printf %.9g / %.17g prints the exactly rounded decimal expansion',
         'a value-initialised struct (P p = P()) is the start state of every case',
     ],
@@ -24,7 +27,7 @@ CONFIG = {
         'GetDict, optional<T> extraction, the JSON map writer/reader',
         'schema descriptor read out of the ParamManager internals by the harness (private members opened in the harness TU)',
     ],
-    'partial': ['C17_json_roundtrip_partial'],
+    'partial': [],
 }
 
 MANIFEST = {
